@@ -47,8 +47,8 @@ WRITERS = {
     'PCSO._append_constraint': ({'_constraints'}, "records a constraint (PCSO's copy of the PCBO helper; R03.5 requires it to delegate to or equal PCBO's)"),
     'PCBO._pop_constraint': ({'_constraints'}, "removes the record of a nested constraint"),
     'PCBO._next_ancilla': ({'_ancilla'}, "takes the next ancilla name"),
-    'PCBO.__round__': ({'_constraints'}, "derived model keeps the constraints"),
-    'PCBO.subs': ({'_constraints'}, "derived model gets substituted constraints"),
+    'PCBO.__round__': ({'_constraints', '_ancilla'}, "derived model keeps the constraints and the ancilla counter"),
+    'PCBO.subs': ({'_constraints', '_ancilla'}, "derived model gets substituted constraints and the ancilla counter"),
     '_pcso._empty_pcbo': ({'_ancilla'}, "seeds the helper's counter"),
     '_info.create_from_info': ({'_ancilla'}, "restores the counter of a serialised model"),
 }
@@ -135,6 +135,8 @@ def rules(ctx):
     ctx.rule('R14.10', "a field of model objects that is not one of the frozen bookkeeping fields and is written together "
                        "with the terms / a bookkeeping field is written by every other mutator of that state", floor=1)
     derived_fields(ctx, 'R14.10')
+    ctx.rule('R14.11', "the constraint record and the ancilla counter are handed to a derived model together", floor=2)
+    record_and_counter_together(ctx, 'R14.11')
     no_module_state(ctx, 'R14.10')
     from .C02 import copy_ctor_counter
     copy_ctor_counter(ctx, 'R14.8')
@@ -243,6 +245,15 @@ def rules(ctx):
     for f_ in P.all_funcs():
         for node, obj, f, kind, detail in field_writes(f_.node, {'_ancilla', '_next_label'}):
             if f_.qual in CTOR_OR_HANDOFF:
+                continue
+            if f_.qual in ('PCBO.subs', 'PCBO.__round__') and f == '_ancilla':
+                # derived model: the counter is handed over from self, never reset
+                sn_ = R.self_name(f_)
+                okh = kind == 'assign' and obj != sn_ and isinstance(detail, ast.AST) and \
+                    src(detail) in ('%s._ancilla' % sn_, '%s.num_ancillas' % sn_)
+                ctx.inst('R14.8', f_, node, okh,
+                         "derived model takes over self's ancilla counter" if okh else
+                         "%s writes `%s`: the derived model's counter is not self's counter" % (f_.qual, src(node)[:50]))
                 continue
             ok = kind == 'aug' and isinstance(detail[0], ast.Add) and (const_num(detail[1]) or 0) > 0
             ctx.inst('R14.8', f_, node, ok,
@@ -573,6 +584,35 @@ def derived_fields(ctx, rid):
                              "%s writes %s together with %s" % (g.qual, F, dep) if ok else
                              "the new field `%s` is written together with `%s` (%s) but %s changes `%s` without writing it: "
                              "`%s` goes stale" % (F, dep, ', '.join(sorted(w.qual for w in non_init))[:80], g.qual, dep, F))
+
+
+def record_and_counter_together(ctx, rid):
+    """The constraint record and the ancilla counter describe the same penalties: whoever hands the record of a model
+    to another object (a derived model built otherwise than through the copy constructor: subs, __round__) hands the
+    counter over too - otherwise the derived model holds the ancillas __a0.. but counts 0, and its next constraint
+    uses the same names again."""
+    P, R = ctx.prog, ctx.res
+    n = 0
+    for fn in P.all_funcs():
+        if fn.outer is not None:
+            continue
+        ws = [w for w in field_writes(fn.node, G3) if w[3] == 'assign']
+        by_obj = {}
+        for w in ws:
+            by_obj.setdefault(w[1], set()).add(w[2])
+        for obj, got in sorted(by_obj.items()):
+            if '_constraints' not in got:
+                continue
+            n += 1
+            ok = '_ancilla' in got
+            first = [w for w in ws if w[1] == obj and w[2] == '_constraints'][0]
+            ctx.inst(rid, fn, first[0], ok,
+                     "%s gets the record and the counter together" % obj if ok else
+                     "%s gives `%s` the constraint record but not the ancilla counter: the object holds the constraints' ancilla "
+                     "variables while num_ancillas says 0, so the next constraint added to it reuses their names"
+                     % (fn.qual, obj))
+    if not n:
+        raise AnalysisError("record_and_counter_together: no wholesale assignment of _constraints found")
 
 
 def clear_reinit(ctx, rid):
